@@ -497,6 +497,14 @@ func (p *Posix) DeleteBucket(_ context.Context, bucket string) error {
 	if err != nil {
 		return fmt.Errorf("remove bucket: %w", err)
 	}
+	// the bucket's own attributes (ACL, policy, tags, versioning, lock and
+	// ownership settings) go with it. With xattrs they were on the
+	// directory; the sidecar store keeps them by bucket name, where a
+	// later bucket of the same name would inherit them.
+	err = p.meta.DeleteAttributes(bucket, "")
+	if err != nil {
+		return fmt.Errorf("remove bucket attributes: %w", err)
+	}
 	// Remove the bucket from versioning directory
 	if p.versioningEnabled() {
 		err = os.RemoveAll(filepath.Join(p.versioningDir, bucket))
